@@ -979,6 +979,14 @@ func (vc *VC) libCall(call ssa.CallInstruction, callee *ssa.Function, args []Ter
 			vc.gfact(Imp(Ne(sx("i_tag", r[1]), "0"), Eq(r[0], "0")))
 		}
 		return true
+	case "(*bufio.Scanner).Text":
+		// assumed library contract (default split function bufio.ScanLines): the token is one line without
+		// its terminator - no LF and no trailing CR. Available to contracts as scanline(s).
+		r := strRes()
+		fn := sym("spec:scanline")
+		vc.declareFun(fn, []string{SStr}, "Bool")
+		vc.gfact(sx(fn, r))
+		return true
 	case "(*regexp.Regexp).MatchString":
 		// pure: a function of the compiled expression and the text
 		fn := sym("spec:rematch")
